@@ -5,7 +5,7 @@ sd=$1; name=${2:-$(basename $sd)}
 export GOFLAGS=-mod=mod GOPROXY=off GOSUMDB=off GOTOOLCHAIN=local; unset GOWORK
 wt=/tmp/vs-$name
 git -C /repo worktree remove --force $wt 2>/dev/null; rm -rf $wt
-git -C /repo worktree add -q $wt HEAD || exit 3
+git -C /repo worktree add -q $wt ${BASE:-HEAD} || exit 3
 trap 'git -C /repo worktree remove --force '$wt' 2>/dev/null; rm -rf '$wt EXIT
 place=$(head -1 $sd/demo_test.go | sed -n 's#^// place in: *\([^ (]*\).*#\1#p'); place=${place:-.}
 [ "$place" = "." ] || [ -d "$wt/$place" ] || { echo "BAD place '$place'"; exit 3; }
